@@ -69,6 +69,15 @@ inline void probe_copy_select(frg::optional<bool> &ob, frg::optional<wit::Elem> 
 	frg::optional<bool> c1(ob); frg::optional<wit::Elem> c2(oe); frg::optional<Greedy> c3(og);
 	frg::variant<wit::Elem, wit::Other, int> c4(v); frg::expected<wit::Err, wit::Elem> c5(ex);
 	(void)c1; (void)c2; (void)c3; (void)c4; (void)c5;
+}
+// ... and the other three value categories of a same-type source: const lvalue, rvalue, const rvalue (std::move of a const
+// object, a const member of an rvalue): always the copy or the move constructor, never a converting template.
+inline void probe_copy_select_cv(const frg::optional<bool> &cob, frg::optional<bool> &ob, const frg::optional<Greedy> &cog,
+		frg::optional<Greedy> &og, const frg::optional<wit::Elem> &coe, frg::optional<wit::Elem> &oe) {
+	frg::optional<bool> b1(cob); frg::optional<bool> b2(std::move(ob)); frg::optional<bool> b3(std::move(cob));
+	frg::optional<Greedy> g1(cog); frg::optional<Greedy> g2(std::move(og)); frg::optional<Greedy> g3(std::move(cog));
+	frg::optional<wit::Elem> e1(coe); frg::optional<wit::Elem> e2(std::move(oe)); frg::optional<wit::Elem> e3(std::move(coe));
+	(void)b1; (void)b2; (void)b3; (void)g1; (void)g2; (void)g3; (void)e1; (void)e2; (void)e3;
 } }
 // lvalue uses of the tuple helpers: a reference-collapsing parameter instantiated as an lvalue reference must be
 // forwarded, never std::move()d (rule R.forward-collapsed)
